@@ -306,6 +306,7 @@ def handleStore (s : Store) (cmd : String) (a : List String) : Option (Store × 
       | t :: _ => if t == "-" then [] else t.splitOn ","
       | [] => []
     some ({ db := { extra := tables.map fun t => (t, []) } }, "ok debug=1 end=8")
+  | "PRE", _ => some ({}, "ok")
   | "OPN", _ => some (s, "ok")
   | "CLS", _ => some (s, "ok")
   | "RMD", _ => some ({}, "ok")
@@ -413,6 +414,7 @@ independently of the concrete model -/
 def absAfter (ab : Abs) (cmd : String) (a : List String) : Abs :=
   match cmd, a with
   | "NEW", _ => {}
+  | "PRE", _ => {}
   | "RMD", _ => {}
   | "RBD", _ => absRebuild ab
   | "STO", a =>
@@ -456,7 +458,10 @@ partial def loop (h : IO.FS.Stream) (out : IO.FS.Stream) (s : Store) (em : EMap)
       | none =>
         match handleStore s cmd a with
         | some (s', r) =>
-          em := emAfter em cmd s s'
+          em := if cmd == "PRE" then
+              -- a directory whose event.map already exists, zero-filled, `len` bytes long, and has never been opened
+              { fileLen := (a.getD 1 "0").toNat?.getD 0, marker := 0, memLen := 0, mapLen := 0 }
+            else emAfter em cmd s s'
           ab := absAfter ab cmd a
           s := s'
           out.putStrLn r
